@@ -188,11 +188,13 @@ def extract_select(facts):
                 i += 1
             hs = re.sub(r"\s+", "", head)
             g = bool(re.search(r",\s*if\b", head))
-            if re.search(r"\b" + term + r"\.recv\(\)", head):
+            # the branch future must be exactly the receive / the on_run call: anything wrapped
+            # around it (an async block, a helper) can suspend before looking at the channel
+            if re.fullmatch(r"\w+=" + term + r"\.recv\(\)", hs):
                 order.append("BTerm")
-            elif re.search(r"\b" + mail + r"\.recv\(\)", head):
+            elif re.fullmatch(r"\w+=" + mail + r"\.recv\(\)", hs):
                 order.append("BMail")
-            elif ".on_run(" in hs:
+            elif re.fullmatch(r"\w+=(with_actor_scope!\(\w+,)?\w+\.on_run\(&?\w+\)(\.instrument\(\w+\))?\)?(,if\w+)?", hs):
                 order.append("BRun")
                 guarded = g
             else:
